@@ -54,6 +54,19 @@ func drawConcPlan(ch *core.Chooser, env *Env, fileMode int, maxTasks int, kinds 
 	taskPct := []int{40, 60, 80, 93}[ch.Intn("tasks.pct", 4)]
 	opsPct := []int{40, 60, 75}[ch.Intn("tasks.opspct", 3)]
 	same := ch.Intn("tasks.same", 4) == 3 // everyone asks the same thing
+	maxOps := 6
+	switch ch.Intn("tasks.shape", 25) {
+	case 24:
+		// a crowd: more callers than any fixed-size pool or semaphore of a
+		// few dozen slots
+		if maxTasks >= 32 {
+			maxTasks, taskPct = 80, 98
+		}
+	case 22, 23:
+		// long-lived callers: hundreds of calls on one engine in one run
+		// (tickets, rings and counters wrap)
+		maxOps, opsPct = 64, 97
+	}
 	var first []int
 	for t := 0; t < maxTasks; t++ {
 		if t < 2 {
@@ -62,7 +75,7 @@ func drawConcPlan(ch *core.Chooser, env *Env, fileMode int, maxTasks int, kinds 
 			break
 		}
 		var ops []int
-		for j := 0; j < 6; j++ {
+		for j := 0; j < maxOps; j++ {
 			if j == 0 {
 				ch.Begin("op")
 			} else if !ch.More("op", opsPct) {
@@ -235,7 +248,7 @@ func RunC14(ch *core.Chooser, env *Env) *Outcome {
 }
 
 func opClass(o *workload.Op) string {
-	return []string{"dns", "web", "matchall", "match", "cosmetic"}[o.Kind]
+	return []string{"dns", "web", "matchall", "match", "cosmetic", "rescan"}[o.Kind]
 }
 
 func addProbes(out *Outcome, p *core.Probes) {
